@@ -24,7 +24,7 @@ for name in sorted(res):
     if t and t['failed'] == 0 and t['passed'] >= 94:
         realistic += 1; realistic_caught += bool(c)
     out.append(f"| {name} | {what} | {ts} | {', '.join(c) or '-'} | {', '.join(mi + [x + '(exit 2)' for x in inf]) or '-'} |")
-out.append(f"\n{tot} mutants run, {caught_any} caught by at least one check; {realistic} of them pass the repository's suite, of which {realistic_caught} are caught. Mutants expected to be equivalent (`c16_label_swapped_at_zero`, `c17_weekday_offset`, `c01_jd_month_const`) must stay silent and do.\n")
+out.append(f"\n{tot} mutants run, {caught_any} caught by at least one check; {realistic} of them pass the repository's suite, of which {realistic_caught} are caught. Four mutants are equivalent to the original within the properties (`c01_jd_month_const` in double precision, `c06_asr_guard_dropped` because cos H of the Asr altitude never exceeds +1, `c16_label_swapped_at_zero` which only relabels a bearing of exactly 0, `c17_weekday_offset` a refactor): they must stay silent and do.\n")
 
 out.append("### 12.2 Seeded changes written by independent sub-agents (`seeded/<ID>-<n>/`)\n")
 out.append("Each was written from the property text alone in a scratch worktree, and kept only after confirming: it builds with and without `verif-hooks`, the repository's 94 tests pass with it, its demonstration fails with it and passes without it. `target check` is the quick check of the property it was written against; `all checks that report it` comes from running all 20 quick checks on it.\n")
